@@ -2,7 +2,7 @@
    Statements only; proofs in coq/orm/Merge*.v.  Model: coq/orm/Merge.v (mapping A(id,x,y,bs) / B(id,aid,v,a),
    source graph = one A with its B children, any database, any prepared session). *)
 From Coq Require Import List Bool Arith ZArith.
-From SAV.orm Require Import Merge MergeProofs MergeValues MergeIdem MergeWf MergeMain.
+From SAV.orm Require Import Merge MergeProofs MergeValues MergeIdem MergeWf MergeMain MergeColl MergeColl2.
 Import ListNotations.
 
 (* ---- load_false_no_sql_no_dirty ----
@@ -52,6 +52,20 @@ Theorem c45_merge_identity_and_values_after_any_history : forall cfg sas sbs ops
   cols s' t 2 = copied (sa_y src) (base_col cfg load s src 2).
 Proof. exact merge_after_any_history. Qed.
 Print Assumptions c45_merge_identity_and_values_after_any_history.
+
+(* ---- cascaded relationships: the merged collection ----
+   with "merge" in the cascade of A.bs and the collection loaded on the source, the merged collection has one member
+   per source member, in order; a member whose key can be persistent (load=False, an instance already in the
+   session, or an existing row) is the identity-map instance of that key - for any number of children *)
+Theorem c45_merged_collection : forall cfg load sbs s src s' t js,
+  merge_A cfg load sbs s src = Some (s', t) ->
+  mf cfg = true -> sa_bs src = SV js -> valid_children sbs js ->
+  exists dest, bs s' t = Some dest /\ length dest = length js /\
+    forall i j b pk, nth_error js i = Some j -> nth_error sbs j = Some b -> sb_pk b = Some pk ->
+      (load = false \/ idB s pk <> None \/ assoc pk (rowsB cfg) <> None) ->
+      exists c, nth_error dest i = Some c /\ idB s' pk = Some c.
+Proof. exact merge_collection. Qed.
+Print Assumptions c45_merged_collection.
 
 (* ---- merge_idempotent ----
    refuted: a source whose key has no row is copied to a NEW pending object by every merge *)
